@@ -175,6 +175,22 @@ static void et_make_cfg(const char *profile, vh_rng_t *g, uint64_t idx)
     /* same blocks: the fresh-connection/silent-server cases use a per-try timeout above one second, so the
      * back end's sleep has a seconds part as well as a sub-second part */
     c->signals      = vh_chance(g, 1, 3);
+    /* first block: the busy-connection/silent-server cases keep the event thread under a steady stream of answers */
+    c->busy_traffic = (c->conn_sit == ET_CONN_BUSY) && (c->srv_sit == ET_SIT_SILENT) && ((idx / 27) % 2 == 0);
+    if (c->busy_traffic) {
+      c->burst         = 0;
+      c->slow_cb_us    = 0;
+      c->nsrv          = 1;
+      c->tries         = 1;
+      c->timeout_ms    = 250;
+      c->maxtimeout_ms = 250;
+      c->usevc         = 0;
+      c->inj_density   = 0;
+      c->nclients      = 1;
+      c->second_client = 0;
+      c->signals       = 0;
+      c->qcache        = 0;
+    }
     c->long_timeout = (c->conn_sit == ET_CONN_FRESH) && (c->srv_sit == ET_SIT_SILENT) && ((idx / 27) % 2 == 1);
     if (c->long_timeout) {
       c->nsrv          = 1;
@@ -215,11 +231,41 @@ static int et_wait_et_asleep(int ms)
   return 0;
 }
 
+static pthread_t   et_flood_th[2];
+static int         et_flood_started;
 static _Atomic int et_timers_probe = -1;
 static _Atomic int et_timers_asleep_seen;
 static _Atomic int et_backoff_reached;
 static int         et_backoff_confirming; /* second run of a case whose first run saw a late retry */
 static int         et_backoff_need_confirm;
+
+/* busy-traffic scenario: two of these keep datagrams (replies to nobody: unknown ids) coming in on every open
+ * datagram socket of the library, about ten per millisecond each, so that the event thread never finds a wait
+ * without an event however the answering thread is scheduled */
+static void *et_flooder(void *arg)
+{
+  /* a well-formed reply (one question: x.y A IN, no records) that answers nothing the library asked */
+  uint8_t  junk[21] = { 0, 0, 0x81, 0x80, 0, 1, 0, 0, 0, 0, 0, 0, 1, 'x', 1, 'y', 0, 0, 1, 0, 1 };
+  unsigned n        = (unsigned)(uintptr_t)arg * 7919u;
+  et_role           = ET_ROLE_RESP;
+  while (!atomic_load(&et_perpetual_stop) && !atomic_load(&et_closing)) {
+    int i;
+    ET_LOCK(&et_net_mu);
+    for (i = 0; i < ET_MAX_PEERS; i++) {
+      if (et_peers[i].used && !et_peers[i].is_tcp && !et_peers[i].peer_closed && !et_peers[i].lib_closed && et_peers[i].srv >= 0) {
+        ssize_t r;
+        n++;
+        junk[0] = (uint8_t)(0xf0 | (n >> 8 & 0xf));
+        junk[1] = (uint8_t)n;
+        r       = send(et_peers[i].peer_fd, junk, sizeof(junk), MSG_NOSIGNAL | MSG_DONTWAIT);
+        (void)r;
+      }
+    }
+    ET_UNLOCK(&et_net_mu);
+    et_sleep_us(100);
+  }
+  return NULL;
+}
 
 static void *et_client_timers(void *arg)
 {
@@ -256,6 +302,16 @@ static void *et_client_timers(void *arg)
     while (w >= 0 && atomic_load(&et_reqs[w].cb_count) == 0) {
       et_sleep_us(200); /* the watchdog bounds this */
     }
+  } else if (et_cfg.busy_traffic) {
+    for (i = 0; i < 8; i++) {
+      t0 = et_now_ns();
+      et_perp_issue(i);
+      et_client_log(c, K_QUERY, t0);
+    }
+    __real_pthread_create(&et_flood_th[0], NULL, et_flooder, (void *)(uintptr_t)1);
+    __real_pthread_create(&et_flood_th[1], NULL, et_flooder, (void *)(uintptr_t)2);
+    et_flood_started = 1;
+    et_sleep_us(30000);
   } else if (et_cfg.backoff) {
     int64_t w0;
     snprintf(sp.name, sizeof(sp.name), "silbk.ex.test");
@@ -302,11 +358,28 @@ static void *et_client_timers(void *arg)
   if (et_cfg.backoff) {
     snprintf(sp.name, sizeof(sp.name), "silpb.ex.test");
   }
+  if (et_cfg.busy_traffic) {
+    snprintf(sp.name, sizeof(sp.name), "silbt.ex.test");
+    sp.kind = K_QUERY;
+  }
   t0      = et_now_ns();
   atomic_store(&et_timers_probe, et_issue(&sp, 0, et_channel, 0));
   et_client_log(c, sp.kind, t0);
   /* no application action from here on: the event thread alone must finish every request */
-  while (atomic_load(&et_outstanding) > 0) {
+  if (et_cfg.busy_traffic) {
+    int     p  = atomic_load(&et_timers_probe);
+    int64_t w1 = et_now_ns();
+    while (p >= 0 && atomic_load(&et_reqs[p].cb_count) == 0 && et_now_ns() - w1 < 6000 * 1000000LL) {
+      et_sleep_us(500);
+    }
+    atomic_store(&et_perpetual_stop, 1);
+    if (et_flood_started) {
+      pthread_join(et_flood_th[0], NULL);
+      pthread_join(et_flood_th[1], NULL);
+      et_flood_started = 0;
+    }
+  }
+  while (atomic_load(&et_outstanding) > 0 || atomic_load(&et_perp_outstanding) > 0) {
     et_sleep_us(500);
   }
   atomic_fetch_add(&et_clients_done, 1);
@@ -338,6 +411,8 @@ static void et_reset_state(void)
   atomic_store(&et_backoff_reached, 0);
   atomic_store(&et_dup_live, 0);
   atomic_store(&et_dup_last_end_ns, 0);
+  atomic_store(&et_perpetual_stop, 0);
+  atomic_store(&et_perp_outstanding, 0);
   atomic_store(&et_bk_ntx, 0);
   atomic_store(&et_pb_ntx, 0);
   atomic_store(&et_open_lib_socks, 0);
@@ -658,6 +733,30 @@ static void et_run_case(const char *profile, uint64_t seed, uint64_t idx)
         }
       }
     }
+    if (et_cfg.busy_traffic) {
+      /* the unanswered request has one try of 250 ms; the answers streaming in for the other requests must not
+       * keep its timeout from being noticed (slack 400 ms, confirmed by a second run) */
+      int p = atomic_load(&et_timers_probe);
+      vh_count_n("timers.busy_traffic.requests_reissued_from_callbacks", atomic_exchange(&et_perpetual_issued, 0));
+      if (p >= 0) {
+        double took = atomic_load(&et_reqs[p].cb_count) > 0
+                        ? (double)(atomic_load(&et_reqs[p].t_cb) - atomic_load(&et_reqs[p].t_issue)) / 1e6
+                        : 6000.0;
+        vh_count("timers.busy_traffic.evaluated");
+        if (took > et_cfg.timeout_ms + 400) {
+          if (et_backoff_confirming) {
+            vh_violation("timer:et:timeout-late:busy-traffic",
+                         "a request to a silent server (1 try, %d ms) was failed %.0f ms after it was issued%s while the event thread was "
+                         "kept busy by answers to other requests (seen in two consecutive runs of the case); backend=%s",
+                         et_cfg.timeout_ms, took, atomic_load(&et_reqs[p].cb_count) > 0 ? "" : " (at the earliest: traffic was stopped then)",
+                         et_backend_name[et_cfg.backend == 0 ? 0 : et_cfg.backend - 1]);
+          } else {
+            et_backoff_need_confirm = 1;
+            vh_count("timers.busy_traffic.late_once_rerun");
+          }
+        }
+      }
+    }
     if (et_cfg.long_timeout) {
       /* nothing ever arrives: the request must end by its own timeouts, tries x timeout after it was issued
        * (maxtimeout = timeout, so there is no back-off); slack 400 ms, confirmed by a second run */
@@ -786,7 +885,7 @@ static void et_run_case(const char *profile, uint64_t seed, uint64_t idx)
     if (et_cfg.profile == ET_P_TIMERS && nontrivial) {
       vh_fp_add(vh_fnv_u64(vh_fnv_u64(vh_fnv_u64(vh_fnv_u64(vh_fnv_str(VH_FNV_INIT, "timers"), (uint64_t)bk),
                                                  (uint64_t)et_cfg.conn_sit), (uint64_t)et_cfg.srv_sit),
-                           (uint64_t)(et_cfg.usevc * 2 + et_cfg.burst + et_cfg.backoff * 4 + et_cfg.long_timeout * 8)));
+                           (uint64_t)(et_cfg.usevc * 2 + et_cfg.burst + et_cfg.backoff * 4 + et_cfg.long_timeout * 8 + et_cfg.busy_traffic * 16)));
       snprintf(nm, sizeof(nm), "timers.case.%s.%s.%s", et_backend_name[bk], et_conn_name[et_cfg.conn_sit],
                et_sit_name[et_cfg.srv_sit]);
       vh_count(nm);
